@@ -965,6 +965,21 @@ class Canon:
                 # --- tail: match h(..) { Some(p) => A, None => B }
                 tail = blk.get("expr")
                 t = _strip(tail) if tail is not None else None
+                if is_fn_tail and t is not None and t.get("k") == "MethodCall" and t.get("name") == "map" and str(t.get("fn", "")).startswith("std::option::Option") and len(t.get("args", [])) == 1:
+                    # h(..).map(|k| E) with h a search helper  ==  match h(..) { Some(k) => Some(E), None => None }
+                    call0 = _strip(t["recv"])
+                    hp0 = _callee(call0)
+                    cl0 = _strip(t["args"][0])
+                    if hp0 and self._search_helper(hp0) is not None and cl0.get("k") == "Closure" and len(cl0.get("params", [])) == 1 and cl0["params"][0].get("k") == "Bind" and \
+                            not any(x.get("k") in ("Ret", "Try") for x in _walk(cl0["body"])):
+                        sp0 = t.get("sp") or [0, 0, 0, 0]
+                        E0 = cl0["body"]
+                        m0 = {"k": "Match", "scrut": t["recv"], "arms": [
+                            {"pat": {"k": "TupleStruct", "path": "std::option::Option::Some", "ps": [cl0["params"][0]], "ty": call0.get("ty")}, "body": self._some(E0, E0.get("sp") or sp0, t.get("ty"))},
+                            {"pat": {"k": "Path", "path": "std::option::Option::None", "ty": call0.get("ty")}, "body": self._none(sp0, t.get("ty"))}],
+                            "id": self._id(), "ty": t.get("ty"), "sp": list(sp0)}
+                        blk["expr"] = m0
+                        tail, t = m0, m0
                 if is_fn_tail and t is not None and t.get("k") == "Match" and len(t.get("arms", [])) == 2:
                     call = _strip(t["scrut"])
                     hp = _callee(call)
